@@ -500,6 +500,7 @@ package server
 //@   effects none
 //@   ensures result != nil && result.Primary != nil ==> result.PrimaryPath != ""
 //@   ensures result == wsres(s, docURI)
+//@   ensures [tree_is_parser_output] result != nil ==> (forall p string :: has(result.Files, p) ==> JRefOK(result.Files[p])) && (result.Primary != nil ==> JRefOK(result.Primary))
 
 //@ specfun uriPath(u protocol.DocumentURI) string
 //@ trusted uriToPath
@@ -554,7 +555,36 @@ package server
 
 //@ trusted findDefinitionTarget
 //@   effects none
-//@ trusted findAccountReferences
+// sortAndDedup sorts in place (sort.Slice with a comparator closure: not modelled) and keeps the first of equal neighbours.
+//@ trusted sortAndDedup
+//@   ensures len(result) <= len(locations) && (len(result) == 0 || fresh(result))
+//@   modifies elems(locations)
+
+// References to an account. Within every journal of the tree exactly the occurrences add a location: each account
+// directive that declares the name (when declarations are asked for) and each posting whose account is the name, in
+// source order. (The journals are walked in sorted path order; sortAndDedup then orders the locations and drops exact
+// duplicates.) JRefOK: the ranges the parser gave to posting accounts and declared accounts are valid positions.
+//@ pred JRefOK(j) := j != nil && (forall i int, k int :: {j.Transactions[i].Postings[k]} 0 <= i && i < len(j.Transactions) && 0 <= k && k < len(j.Transactions[i].Postings) ==> RngOK(j.Transactions[i].Postings[k].Account.Range)) && (forall d int :: {j.Directives[d]} 0 <= d && d < len(j.Directives) && typeis(j.Directives[d], "ast.AccountDirective") ==> RngOK(as(j.Directives[d], "ast.AccountDirective").Account.Range))
+//@ specdef cntAcc(ps []ast.Posting, j int, name string) int := ite(j <= 0, 0, cntAcc(ps, j - 1, name) + ite(ps[j - 1].Account.Name == name, 1, 0))
+//@ specdef cntTxAcc(ts []ast.Transaction, i int, name string) int := ite(i <= 0, 0, cntTxAcc(ts, i - 1, name) + cntAcc(ts[i - 1].Postings, len(ts[i - 1].Postings), name))
+//@ specdef cntDirAcc(ds []ast.Directive, i int, name string) int := ite(i <= 0, 0, cntDirAcc(ds, i - 1, name) + ite(typeis(ds[i - 1], "ast.AccountDirective") && as(ds[i - 1], "ast.AccountDirective").Account.Name == name, 1, 0))
+//@ func findAccountReferences
+//@   props C09
+//@   requires [C09:ast_ranges] resolved != nil ==> (forall p string :: has(resolved.Files, p) ==> JRefOK(resolved.Files[p])) && (resolved.Primary != nil ==> JRefOK(resolved.Primary))
+//@   requires [C09:ast_ranges_current] currentJournal != nil ==> JRefOK(currentJournal)
+//@   requires [C09:tree_labelled] resolved != nil && resolved.Primary != nil && resolved.PrimaryPath == "" ==> srcPath(resolved) == currentPath
+//@   loop 1 invariant 0 - 1 <= rangeindex && (forall p string :: has(journals, p) ==> JRefOK(journals[p])) && (len(locations) == 0 || fresh(locations))
+//@   loop 1 invariant forall i int :: {rangeover[i]} 0 <= i && i < len(rangeover) ==> has(journals, rangeover[i])
+//@   loop 1 decreases *
+//@   loop 2 invariant JRefOK(journal) && 0 - 1 <= rangeindex && rangeindex <= len(journal.Directives) - 1 && (len(locations) == 0 || fresh(locations))
+//@   loop 2 invariant [C09:declarations_counted] len(locations) == atloop(1, len(locations)) + cntDirAcc(journal.Directives, rangeindex + 1, name)
+//@   loop 2 decreases len(journal.Directives) - rangeindex
+//@   loop 3 invariant JRefOK(journal) && 0 - 1 <= rangeindex && rangeindex <= len(journal.Transactions) - 1 && (len(locations) == 0 || fresh(locations))
+//@   loop 3 invariant [C09:postings_counted] len(locations) == atloop(1, len(locations)) + ite(includeDeclaration, cntDirAcc(journal.Directives, len(journal.Directives), name), 0) + cntTxAcc(journal.Transactions, rangeindex + 1, name)
+//@   loop 3 decreases len(journal.Transactions) - rangeindex
+//@   loop 4 invariant JRefOK(journal) && 0 <= i && i < len(journal.Transactions) && 0 - 1 <= rangeindex && rangeindex <= len(journal.Transactions[i].Postings) - 1 && (len(locations) == 0 || fresh(locations))
+//@   loop 4 invariant len(locations) == atloop(1, len(locations)) + ite(includeDeclaration, cntDirAcc(journal.Directives, len(journal.Directives), name), 0) + cntTxAcc(journal.Transactions, i, name) + cntAcc(journal.Transactions[i].Postings, rangeindex + 1, name)
+//@   loop 4 decreases len(journal.Transactions[i].Postings) - rangeindex
 //@ trusted findCommodityReferences
 //@ trusted findPayeeReferences
 
@@ -563,6 +593,8 @@ package server
 //@ func findReferences
 //@   props C09
 //@   requires target != nil
+//@   requires [C09:ast_ranges] resolved != nil ==> (forall p string :: has(resolved.Files, p) ==> JRefOK(resolved.Files[p])) && (resolved.Primary != nil ==> JRefOK(resolved.Primary))
+//@   requires [C09:ast_ranges_current] currentJournal != nil ==> JRefOK(currentJournal)
 //@   requires [C09:tree_labelled] resolved != nil && resolved.Primary != nil && resolved.PrimaryPath == "" ==> srcPath(resolved) == currentPath
 
 //@ func (*Server).References
